@@ -4,6 +4,7 @@
   sign pattern (not "up to 64" / "up to length 10"), plus the root property of the height.
 -/
 import GHEVerif.Lemmas.Search
+import GHEVerif.Lemmas.SearchNested
 import GHEVerif.Props.C01
 
 namespace GHEVerif.C05
@@ -143,6 +144,34 @@ theorem bisect1D_first_feasible (counts : List Nat) (E : Nat → Rat → Rat) (c
       refine ⟨s.trace ++ [(i, cfg.maxH)], by rw [hb, hf, hk0eq], ?_, hfail _ (by omega) (by omega)⟩
       have := hinv.memTr _ hinv.lIn
       rw [hl'] at this; exact List.mem_append_left _ this
+
+
+/-- Nested lists (`Bisection2D`): the returned field is the 1D selection of its inner list, hence
+    (bisection path, pairwise distinct excesses) it has the fewest boreholes among the candidates of
+    that list evaluated at maximum height and found feasible. -/
+theorem bisect2D_inner_selection (nc : List (List Nat)) (E2 : Nat → Nat → Rat → Rat) (cfg : Cfg)
+    (l k : Nat) (hh : Rat) (tr : Trace2) (h : bisect2D nc E2 cfg = (.selected l k hh, tr)) :
+    ∃ p tr', bisect1D (nc.getD l []) (E2 l) cfg = (.selected k hh p, tr') ∧
+      (p = .bisection →
+        (∀ a b, (a, cfg.maxH) ∈ tr' → (b, cfg.maxH) ∈ tr' → E2 l a cfg.maxH = E2 l b cfg.maxH → a = b) →
+        ∀ j, (j, cfg.maxH) ∈ tr' → E2 l j cfg.maxH < 0 → (nc.getD l []).getD k 0 ≤ (nc.getD l []).getD j 0) := by
+  obtain ⟨_, p, tr', h1⟩ := bisect2D_selected h
+  refine ⟨p, tr', h1, ?_⟩
+  intro hp hdist
+  subst hp
+  exact bisect1D_smallest_evaluated _ _ cfg k hh tr' h1 hdist
+
+/-- Bi-zoned search: among the lists `search_successive` searched and sized, the returned design
+    has the least total drilling (count × sized height), and its field is the 1D selection of its
+    list. -/
+theorem bisectZD_least_total_drilling (nc : List (List Nat)) (E2 : Nat → Nat → Rat → Rat)
+    (sz : Nat → Nat → Rat) (cfg : Cfg) (l k : Nat) (hh : Rat) (tr : Trace2)
+    (h : bisectZD nc E2 sz cfg = (.selected l k hh, tr)) :
+    (∃ h1 p tr', bisect1D (nc.getD l []) (E2 l) cfg = (.selected k h1 p, tr')) ∧
+      ∀ e ∈ zdDone nc E2 sz cfg, ((nc.getD l []).getD k 0 : Nat) * hh ≤ e.2.2 := by
+  obtain ⟨e, _, hs, hmin⟩ := bisectZD_selected h
+  subst e
+  exact ⟨hs, hmin⟩
 
 /-- Unless the height is clamped at a bound, the returned height makes the excess zero within
     solver tolerance: Brent's contract plus a Lipschitz constant `c` give `|excess| ≤ c·tol`. -/
